@@ -168,6 +168,11 @@ def _run_structural(ctx):
         r5.ok(f"{wk.module.relpath}::{wk.qual}", f"--num-workers -> {opt_param} -> start_cluster(.., {opt_param}, ..)", wk.where)
     elif ok is False:
         r5.violation(f"{wk.module.relpath}::{wk.qual}", "the workers command does not start the pool with its --num-workers value", wk.where)
+    # the value as click converts it (declared type=) and as the command body passes it on: an integer, the one that was given
+    from .evalhelpers import cached_witness, report_witness, workers_command_witness
+    report_witness(r5, f"{wk.module.relpath}::{wk.qual}::value", wk.where, cached_witness(ctx, "workers-cmd", workers_command_witness),
+                   "`gwf workers -n 1|2|7` start the pool with exactly that many cores; non-integers are refused by click",
+                   select=lambda d: "cores" in d or "core count" in d or "ends with" in d)
 
 
 def run(ctx):
